@@ -28,6 +28,9 @@ CONSTANTS
 
 SETUP = ('def pr(s) { try { to_string(eval(s)) } catch(e) { "E" } }; '
          'def fc(n) { if (get_functions().count(n) == 0) { "-" } else { to_string(get_functions()[n].get_contained_functions().size()) } }; '
+         # persistent call sites: parsed once, before any snapshot, and run again after every step (their nodes keep whatever lookup hints they cached)
+         'def prf(fn) { try { to_string(fn()) } catch(e) { "E" } }; '
+         + "".join(f'def site_{n}_i() {{ (1).{n}() }}; def site_{n}_s() {{ "s".{n}() }}; ' for n in ("f", "g")) +
          'var L0 = 5; 0')
 
 
@@ -35,7 +38,7 @@ def probe_src():
     ex = []
     for n in FN:
         ex += [f'pr("{n}(1)")', f'pr("(1).{n}()")', f'pr("{n}(\\"s\\")")', f'pr("\\"s\\".{n}()")', f'pr("{n}()")',
-               f'to_string(function_exists("{n}"))', f'fc("{n}")']
+               f'to_string(function_exists("{n}"))', f'fc("{n}")', f'prf(site_{n}_i)', f'prf(site_{n}_s)']
     for g in GN:
         ex.append(f'pr("{g}")')
     for t in TN:
@@ -58,6 +61,7 @@ def expected_probe(view):
             out.append(str(len(present)))
         else:
             out.append("1" if i else "0")   # a lone function with an arithmetic parameter is wrapped in a Dispatch_Function
+        out += [str(i) if i else "E", str(s) if s else "E"]      # the persistent sites see what a freshly parsed call sees
     for g in GN:
         out.append(str(view["gl"][g]) if view["gl"][g] else "E")
     for t in TN:
@@ -90,7 +94,7 @@ def export(family, n, hist_len, shards, work, seed):
     return recs
 
 
-def to_case(rec, usedir):
+def to_case(rec, usedir, probe_after_set=True):
     steps = [{"op": "eval", "src": SETUP}]
     serial = 0
     snaps = 0
@@ -130,6 +134,9 @@ def to_case(rec, usedir):
         elif k == "set":
             if exp["res"] == "ok":
                 steps.append({"op": "set_state", "slot": int(s)})
+        if k == "set" and not probe_after_set:
+            plan.append((k, opstep, None))         # no look in between: a call site that is not run keeps what it remembered
+            continue
         steps.append({"op": "eval", "src": probe_src()})
         plan.append((k, opstep, len(steps) - 1))
     return {"id": str(rec["id"]), "to": 60, "usepaths": [usedir + "/"], "steps": steps}, plan
@@ -161,10 +168,15 @@ def run(ck, tier, seed):
         import random
         recs = random.Random(seed).sample(recs, 1500)
     recs += export("random", 400 if quick else 5000, 8, 8, work, seed)
+    timelines = export("timelines", 0, 0, 4, work, seed)
+    for r in timelines:
+        r["id"] += 50000000
+    tl_ids = {str(r["id"]) for r in timelines}
+    recs += timelines
     vdrive = lib.build("vdrive", "plain")
     cases, plans, byid = [], {}, {}
     for r in recs:
-        c, plan = to_case(r, usedir)
+        c, plan = to_case(r, usedir, probe_after_set=str(r["id"]) not in tl_ids)
         cases.append(c)
         plans[c["id"]] = plan
         byid[c["id"]] = r
@@ -188,6 +200,11 @@ def run(ck, tier, seed):
                     ok = r["oc"] == "val"
                     if ok != (exp["res"] == "ok"):
                         bad = f"operation outcome {r['oc']} ({r.get('why') or r.get('ex')}), model says {exp['res']}"
+            if probe is None:
+                if bad:
+                    ck.violation(hist_key(rec, i), f"after step {i + 1} ({k}): {bad}", {"history": rec["ops"]})
+                    break
+                continue
             p = st[probe]
             want = expected_probe(exp["view"])
             got = None
@@ -199,10 +216,10 @@ def run(ck, tier, seed):
             if bad:
                 ck.violation(hist_key(rec, i), f"after step {i + 1} ({k}): {bad}",
                              {"history": rec["ops"], "step": i + 1, "expected": exp, "observed": [st[opstep] if opstep is not None else None, p],
-                              "probe": "f(1), (1).f(), f(s), s.f(), f(), function_exists, contained; same for g; ga, gb; TA undef?, TB undef?; K().kget(); L0"})
+                              "probe": "f(1), (1).f(), f(s), s.f(), f(), function_exists, contained, persistent sites (1).f() / s.f(); same for g; ga, gb; TA undef?, TB undef?; K().kget(); L0"})
                 break
     ck.exhaustive = not quick
-    ck.rule = ("all 4913 histories of length 3 over 17 operations (a seeded 1500 in quick) plus seeded random histories of length 8, expected "
+    ck.rule = ("all 4913 histories of length 3 over 17 operations (a seeded 1500 in quick) plus seeded random histories of length 8, plus 304 diverged-timeline histories (get; defs; set; other defs - not probed right after set_state), expected "
                "visible environment computed by TLC after every step; distinct = distinct expected probe vectors")
     ck.sample({"history": recs[0]["ops"], "expected_after_last_step": recs[0]["expect"][-1]})
     ck.sample({"history": recs[-1]["ops"]})
